@@ -40,6 +40,8 @@ def check(prog, run):
     hvcc_profile_bytes(prog, run, "R7")
     run.rule("R9", "AV1 sequence-header parser == specification syntax (5.5.1-5.5.5): same bit widths in the same order and the same configuration values on every enumerated syntax path")
     av1_reader_rule(prog, run, "R9")
+    run.rule("R10", "offset-passing header parsers (VP9): every read starts at the offset returned by the read before it (+k) on every path; no field is read from bytes another field consumed")
+    cursor_chain_rule(prog, run, "R10")
     run.rule("R8", "table-driven configuration fields agree with their specification tables (AAC samplingFrequencyIndex; av1C flag bits per configuration field)")
     aac_frequency_index_rule(prog, run, "R8")
     av1c_flags_rule(prog, run, "R8")
@@ -629,6 +631,180 @@ def av1_reader_rule(prog, run, rule):
             run.bad(rule, "AV1 sequence header (%s): %s" % (label, mm["what"]), "on the syntax path %s the parser deviates from the specification: %s" % (
                 {k: v for k, v in mm["scenario"].items() if v}, mm["what"]), mir.loc_of(u.bodies[name]) if name in u.bodies else None)
     run.extra["av1_syntax_paths_compared"] = total
+
+
+# ---- R10: cursor discipline of offset-passing header parsers -------------------------------------------------------------------
+def _cursor_readers(u):
+    """local non-test functions `f(&[u8], usize, ..)`: {path: (slice param index, cursor param index, returns_cursor)} where returns_cursor
+    means the return type is Option/Result of a tuple with exactly one usize component (value(s), next offset)"""
+    out = {}
+    for f, b in u.bodies.items():
+        if b["in_test_cfg"] or b.get("kind") == "Closure":
+            continue
+        tys = [b["locals"][i]["ty"] for i in range(1, b["argc"] + 1)]
+        if tys.count("usize") != 1 or not any(t in ("&[u8]", "&mut [u8]") for t in tys):
+            continue
+        ret = b["locals"][0]["ty"]
+        inner = ret[ret.find("<(") + 2:ret.rfind(")>")] if "<(" in ret and ")>" in ret else None
+        comps = [c.strip() for c in inner.split(",")] if inner else []
+        out[f] = (tys.index("&[u8]") if "&[u8]" in tys else tys.index("&mut [u8]"), tys.index("usize"), comps.count("usize") == 1 and len(comps) >= 2)
+    return out
+
+
+def cursor_chain_rule(prog, run, rule):
+    """An offset-passing parser reads consecutive fields: each read that returns `(value, next_offset)` hands the position after
+    the bytes it consumed to the next read.  Abstractly interpreting the caller (worklist over (block, provenance of every usize /
+    result local, last cursor-returning read); no values), every read must start at `next_offset(last read) + k`, k >= 0.  A read
+    that starts from an older cursor re-reads bytes another field was taken from - the fields it yields are not those of the
+    header (necessary condition of 'profile, bit depth and colour fields of the first VP9 keyframe'; the field semantics
+    themselves are not decided: the crate's VP9 header layout has no external specification to compare with)."""
+    u = prog.lib
+    readers = _cursor_readers(u)
+    nsites = 0
+    for f, b in sorted(u.bodies.items()):
+        if b["in_test_cfg"]:
+            continue
+        sites = [i for i, blk in enumerate(b["blocks"]) if blk["term"]["k"] == "call" and mir.callee(blk["term"])[0] in readers]
+        if len(sites) < 2 or not any(readers[mir.callee(b["blocks"][i]["term"])[0]][2] for i in sites):
+            continue
+        nsites += len(sites)
+        bad = _cursor_walk(b, readers)
+        ords = {}
+        for i in sites:
+            t = b["blocks"][i]["term"]
+            name = mir.norm(mir.callee(t)[0]).split("::")[-1]
+            ords[i] = "%s#%d" % (name, sum(1 for j in sites if j <= i and mir.norm(mir.callee(b["blocks"][j]["term"])[0]).split("::")[-1] == name))
+        for i in sites:
+            t = b["blocks"][i]["term"]
+            why = bad.get(i)
+            run.check(why is None, rule, "cursor chain %s %s" % (mir.norm(f).split("::")[-1], ords[i]), "starts at the offset returned by the read before it (+k) on every path",
+                      "" if why is None else "in %s the read %s (line %s) starts at %s although the read %s (line %s) was performed since: the bytes that read consumed are read again as a different field, so the values parsed from here on are not the header's"
+                      % (mir.norm(f), ords[i], t["span"]["line"], _prov_str(b, ords, why[0]), ords.get(why[1], "?"), b["blocks"][why[1]]["term"]["span"]["line"]),
+                      "%s:%s" % (t["span"]["file"], t["span"]["line"]))
+    run.floor(rule, nsites, 5, "offset-passing read call sites in chained parsers")
+
+
+def _prov_str(b, ords, v):
+    if v is None:
+        return "an offset of unknown origin"
+    if v[0] == "k":
+        return "the constant offset %d" % v[1]
+    if v[0] == "cur":
+        return "the offset returned by the earlier read %s%s" % (ords.get(v[1], "?"), " + %d" % v[2] if v[2] else "")
+    return str(v)
+
+
+def _cursor_walk(b, readers, limit=200000):
+    """{read site block: (cursor provenance, last read block)} for reads that do not start after the last cursor-returning read"""
+    def val_of(env, op):
+        if op["k"] == "const":
+            return ("k", op["v"]) if isinstance(op.get("v"), int) and not isinstance(op.get("v"), bool) else None
+        pl = op["place"]
+        v = env.get(pl["l"])
+        return proj(v, pl)
+
+    def proj(v, pl):
+        if v is None or not pl["p"]:
+            return v
+        if v[0] == "pair":
+            fs = [q for q in pl["p"] if q["k"] == "field"]
+            return v[1] if len(fs) == 1 and fs[0]["i"] == 0 else None
+        if v[0] == "res":
+            ty = pl.get("ty", "")
+            if ty == "usize":
+                return ("cur", v[1], 0)
+            return v if "usize" in ty else None
+        if all(q["k"] == "deref" for q in pl["p"]):
+            return v
+        return None
+
+    def add(a, c):
+        if a is None or c is None:
+            return None
+        if a[0] == "k" and c[0] == "k":
+            return ("k", a[1] + c[1])
+        if a[0] == "cur" and c[0] == "k":
+            return ("cur", a[1], a[2] + c[1]) if 0 <= a[2] + c[1] <= 64 else None
+        if c[0] == "cur" and a[0] == "k":
+            return add(c, a)
+        return None
+    bad = {}
+    start = (0, frozenset(), None)
+    seen = {start}
+    work = [start]
+    n = 0
+    while work:
+        bb, envf, last = work.pop()
+        n += 1
+        if n > limit:
+            raise RuntimeError("cursor walk: state budget exhausted in %s" % b.get("path"))
+        env = dict(envf)
+        blk = b["blocks"][bb]
+        for st in blk["stmts"]:
+            if st["k"] != "assign" or st["place"]["p"]:
+                continue
+            rv = st["rv"]
+            k = rv["k"]
+            v = None
+            if k == "use":
+                v = val_of(env, rv["op"])
+            elif k in ("ref", "copyderef"):
+                v = proj(env.get(rv["place"]["l"]), rv["place"])
+            elif k == "binop" and rv["op"] in ("Add", "AddWithOverflow", "AddUnchecked"):
+                v = add(val_of(env, rv["a"]), val_of(env, rv["b"]))
+                if rv["op"] == "AddWithOverflow":
+                    v = ("pair", v) if v else None
+            elif k == "binop" and rv["op"] in ("Sub", "SubWithOverflow"):
+                a, c = val_of(env, rv["a"]), val_of(env, rv["b"])
+                v = add(a, ("k", -c[1])) if c and c[0] == "k" else None
+                if rv["op"] == "SubWithOverflow":
+                    v = ("pair", v) if v else None
+            if v is None:
+                env.pop(st["place"]["l"], None)
+            else:
+                env[st["place"]["l"]] = v
+        t = blk["term"]
+        k = t["k"]
+        succ = []
+        if k == "goto":
+            succ = [t["target"]]
+        elif k == "switch":
+            succ = [x[1] for x in t.get("arms") or []] + ([t["otherwise"]] if t.get("otherwise") is not None else [])
+        elif k in ("assert", "drop"):
+            succ = [t["target"]]
+        elif k == "call":
+            name, info = mir.callee(t)
+            dest = t["dest"]["l"] if not t["dest"]["p"] else None
+            v = None
+            if name in readers:
+                si, ci, rc = readers[name]
+                cv = val_of(env, t["args"][ci]) if ci < len(t["args"]) else None
+                if last is not None and not (cv and cv[0] == "cur" and cv[1] == last and cv[2] >= 0):
+                    bad.setdefault(bb, (cv, last))
+                if rc:
+                    last = bb
+                    v = ("res", bb)
+            else:
+                # pass-through of a read result by the `?` machinery and by value-preserving adaptors
+                carried = [val_of(env, a) for a in t["args"]]
+                carried = [c for c in carried if c and c[0] == "res"]
+                if carried and "usize" in t["dest"].get("ty", ""):
+                    v = carried[0]
+            if dest is not None:
+                if v is None:
+                    env.pop(dest, None)
+                else:
+                    env[dest] = v
+            if t.get("target") is not None:
+                succ = [t["target"]]
+        for s_ in succ:
+            if b["blocks"][s_].get("cleanup"):
+                continue
+            stt = (s_, frozenset(env.items()), last)
+            if stt not in seen:
+                seen.add(stt)
+                work.append(stt)
+    return bad
 
 
 def _walk_nodes(nodes):
